@@ -7,7 +7,7 @@ import random, json, sys, os
 from ..harness import coq, impl
 
 pid = 'C17'
-gen_modules = ['tr_lintexec', 'tr_rest_lintcontract', 'tr_rest_lintrules', 'tr_rest_lintglue', 'tr_rest_linttables']
+gen_modules = ['tr_lintexec', 'tr_rest_lintcontract', 'tr_rest_lintrules', 'tr_rest_lintglue', 'tr_rest_linttables', 'tr_rest_lintmisc']
 model_targets = ['Sem/LintExec.v']
 hand_modelled = ['coq/Sem/LintExec.v: the tail of deal/linter/_template.py, Rule._validate, the test of get_pre.handle_call (hand-written; source pinned by tools/py2coq/lintexec_pins.json)',
                  'ast.literal_eval / astroid (extraction of literal values, resolution of the callee) and the runtime Validator itself are oracles: the runtime outcome is obtained by '
